@@ -67,6 +67,9 @@ def gen(tier, seed):
     # several combination groups side by side inside one component (link maps with several keys per column)
     for _ in range(30 if q else 400):
         texts.append(("groups", TX.r_stmt(TX.groups_stmt(tg, rng))))
+    # component pairs with a component of the same type outside the braces (shared by - and copied into - every expanded statement)
+    for _ in range(30 if q else 400):
+        texts.append(("pairs-shared", TX.r_stmt(TX.pairs_shared_stmt(tg, rng))))
     # conversion time grows steeply with the length of the statement; order dependence does not need long ones
     return [(k, t) for k, t in texts if len(t) <= (260 if q else 600)]
 
